@@ -529,8 +529,12 @@ def run_check(pid, tier, seed, t0):
         'wall_s': round(wall, 2),
         'violations': 1 if status else 0,
     }
-    os.makedirs(os.path.join(VERIF, 'evidence'), exist_ok=True)
-    with open(os.path.join(VERIF, 'evidence', pid + '.json'), 'w') as f:
+    # evidence describes /repo; a run against a scratch copy (NETADDR_REPO, used to evaluate seeded changes
+    # and harmless rewrites) must not overwrite it
+    evdir = os.path.join(VERIF, 'evidence') if not os.environ.get('NETADDR_REPO') else \
+        os.path.join(os.environ.get('TMPDIR', '/tmp'), 'verif-scratch-evidence')
+    os.makedirs(evdir, exist_ok=True)
+    with open(os.path.join(evdir, pid + '.json'), 'w') as f:
         json.dump(ev, f, indent=1, sort_keys=True)
         f.write('\n')
     log('[%s] %s in %.1fs' % (pid, 'OK' if status == 0 else 'VIOLATION', wall))
